@@ -10,6 +10,7 @@
 #include <set>
 #include <sys/socket.h>
 #include <netinet/in.h>
+#include <errno.h>
 #include <unistd.h>
 #include <event2/event.h>
 #include <event2/buffer.h>
@@ -28,11 +29,12 @@ enum { OP_REQ, OP_REPLY, OP_SEND, OP_LOOP, OP_ADVANCE, OP_CLIENT_CLOSE, OP_CREQ,
 static const char *const opnames[OP_N] = {"request_bytes", "reply_recipe", "send", "loop", "advance", "client_close", "make_request", "server_response", "cancel", "connection_free"};
 
 #define NCONN 4
+#define NSHAPES 36
 
 typedef std::vector<std::pair<std::string, std::string>> Hdrs;
 
 struct Delivered { std::string method, uri; int major, minor; Hdrs headers; std::string body; };
-struct Recipe { int style = 0; int status = 200; std::string reason; Hdrs headers; std::string body; int nchunks = 1; };
+struct Recipe { int style = 0; int status = 200; std::string reason; Hdrs headers; std::string body; int nchunks = 1; int empty_at = -1; };	// empty_at: an empty evbuffer is passed to evhttp_send_reply_chunk before that chunk
 struct Reply { Recipe r; std::string method; };
 
 // a scripted client of the evhttp server
@@ -41,6 +43,7 @@ struct SConn {
 	bool open = false, connecting = false, closed_by_server = false, closed_by_client = false;
 	std::string stream;			// every byte queued for this connection
 	size_t sent = 0;			// how much of it has been handed to the network
+	size_t want = 0;			// how much the plan has asked to send so far (matters when the rest is held back)
 	int twin_of = -1;
 	uint64_t cutseed = 0;
 	std::vector<Delivered> delivered;	// what the server's callback saw from this connection, in order
@@ -48,6 +51,8 @@ struct SConn {
 	std::string in;				// response bytes received
 	int port = 0;
 	size_t in_highwater = 0;
+	int undecided = -1;	// the sent bytes end inside message number 'undecided', which already exceeds a limit for certain
+	std::string undecided_why;
 	int owed = -1;	// first valid message that was not delivered although everything before it was
 	bool was_reset = false;	// the server closed with unread input: the network may have dropped the tail of what it wrote
 	std::vector<std::pair<h9::Msg, bool>> msgs;	// reference reading of the stream: (message, was it delivered to the callback)
@@ -66,6 +71,8 @@ struct CReq {
 	std::string body;
 	int errcode = -1;
 	bool submitted = false;
+	bool chain = false;		// its completion callback makes one more request on the same connection
+	int chained_from = -1;
 };
 // client side: a scripted server connection accepted from the library
 struct SrvConn {
@@ -81,6 +88,9 @@ struct CConn {
 	std::deque<std::string> responses;	// scripted response byte strings, one per request read
 	std::deque<std::pair<int, int>> resp_mode;	// (close_at, gap): close after that many bytes of the response (-1 no), pause
 	bool freed = false;
+	bool autofree = false;		// evhttp_connection_free_on_completion(): the library frees it; alive as long as its block is
+	uint64_t seq = 0;		// allocation serial of the connection object
+	int refuse_left = 0;		// connect attempts still to be refused
 	int twin_of = -1;
 	std::vector<std::string> methods_seen;	// methods of the requests the scripted server has read, in order
 	std::string resp_stream;		// all response bytes sent so far on the current accepted connection
@@ -126,6 +136,23 @@ static const char *cmd_name(enum evhttp_cmd_type t) {
 static Hdrs hdrs_of(struct evkeyvalq *q) { Hdrs h; for (struct evkeyval *kv = q->tqh_first; kv; kv = kv->next.tqe_next) h.emplace_back(kv->key, kv->value); return h; }
 static std::string buf_str(struct evbuffer *b) { size_t n = evbuffer_get_length(b); std::string s(n, '\0'); if (n) evbuffer_copyout(b, &s[0], n); return s; }
 
+// the value a reader derives from a value the API accepted with line folding in it (each fold reads as one space)
+static std::string unfold(const std::string &v) {
+	if (v.find('\n') == std::string::npos) return v;
+	std::string out;
+	size_t p = 0;
+	bool first = true;
+	while (p <= v.size()) {
+		size_t e = v.find('\n', p);
+		if (e == std::string::npos) e = v.size();
+		std::string piece = v.substr(p, e - p);
+		if (!piece.empty() && piece.back() == '\r') piece.pop_back();
+		out += first ? h9::trim(piece) : " " + h9::trim(piece);
+		first = false;
+		p = e + 1;
+	}
+	return out;
+}
 static bool hdrs_equal(const Hdrs &a, const Hdrs &b, std::string *why) {
 	if (a.size() != b.size()) { if (why) *why = std::to_string(a.size()) + " vs " + std::to_string(b.size()) + " header fields"; return false; }
 	for (size_t i = 0; i < a.size(); i++) if (h9::lower(a[i].first) != h9::lower(b[i].first) || a[i].second != b[i].second) { if (why) *why = "field " + std::to_string(i) + ": '" + esc(a[i].first) + ": " + esc(a[i].second) + "' vs '" + esc(b[i].first) + ": " + esc(b[i].second) + "'"; return false; }
@@ -167,7 +194,7 @@ static void gen_cb(struct evhttp_request *req, void *) {
 	Hdrs accepted;
 	for (auto &h : rc.headers) {
 		int r = API(evhttp_add_header(evhttp_request_get_output_headers(req), h.first.c_str(), h.second.c_str()));
-		if (r == 0) accepted.push_back(h); else probe("header-refused-by-api");
+		if (r == 0) accepted.emplace_back(h.first, unfold(h.second)); else probe("header-refused-by-api");
 	}
 	rp.r.headers = accepted;
 	c.replies.push_back(rp);
@@ -184,7 +211,11 @@ static void gen_cb(struct evhttp_request *req, void *) {
 		APIV(evhttp_send_reply_start(req, rc.status, rc.reason.empty() ? nullptr : rc.reason.c_str()));
 		size_t n = std::max(1, rc.nchunks), per = (rc.body.size() + n - 1) / n, off = 0;
 		struct evbuffer *b = evbuffer_new();
-		while (off < rc.body.size()) { size_t k = std::min(per ? per : 1, rc.body.size() - off); evbuffer_add(b, rc.body.data() + off, k); APIV(evhttp_send_reply_chunk(req, b)); off += k; }
+		int ci_chunk = 0;
+		while (off < rc.body.size()) {
+			if (ci_chunk++ == rc.empty_at) { APIV(evhttp_send_reply_chunk(req, b)); probe("empty-chunk-mid-reply"); }	// b is empty here: must not end the reply
+			size_t k = std::min(per ? per : 1, rc.body.size() - off); evbuffer_add(b, rc.body.data() + off, k); APIV(evhttp_send_reply_chunk(req, b)); off += k;
+		}
 		evbuffer_free(b);
 		APIV(evhttp_send_reply_end(req));
 		probe("chunked-reply");
@@ -198,7 +229,7 @@ static void sconn_connect(int ci) {
 	if (c.open || c.connecting || c.closed_by_server || c.closed_by_client) return;
 	sockaddr_in sa = vk::addr4(0x7f000001, 8080);
 	vk::EndpointCbs cb;
-	cb.on_connected = [ci](vk::Endpoint *e) { SConn &c = R->sc[ci]; c.open = true; c.connecting = false; c.port = vk::ep_local_port(e); send_more(ci, c.stream.size()); };
+	cb.on_connected = [ci](vk::Endpoint *e) { SConn &c = R->sc[ci]; c.open = true; c.connecting = false; c.port = vk::ep_local_port(e); send_more(ci, R->plan->c("hold_back") ? c.want : c.stream.size()); };
 	cb.on_connect_failed = [ci](vk::Endpoint *, int) { R->sc[ci].connecting = false; R->sc[ci].closed_by_server = true; };
 	cb.on_data = [ci](vk::Endpoint *, const std::string &d) { R->sc[ci].in += d; };
 	cb.on_eof = [ci](vk::Endpoint *e) { SConn &c = R->sc[ci]; c.closed_by_server = true; c.open = false; vk::ep_close(e); tr("client%d: server closed after %zu bytes: ..%s", ci, c.in.size(), esc(c.in.size() > 200 ? c.in.substr(c.in.size() - 200) : c.in, 400).c_str()); };
@@ -229,7 +260,7 @@ static std::string make_request(int shape, int64_t p, int idx) {
 	std::string m = methods[p % 10], target = "/r" + std::to_string(idx), ver = "HTTP/1.1", hdr = "Host: test\r\n", body;
 	auto cl = [&](const std::string &b) { return "Content-Length: " + std::to_string(b.size()) + "\r\n"; };
 	std::string b1 = std::string((size_t)(p % 50), 'b'), b2 = "hello world " + std::to_string(p);
-	switch (shape % 30) {
+	switch (shape % NSHAPES) {
 	case 0: break;																// plain
 	case 1: m = "POST"; hdr += cl(b2); body = b2; break;
 	case 2: m = "POST"; hdr += "Transfer-Encoding: chunked\r\n"; body = "5\r\nhello\r\n" + std::string(p % 2 ? "3;ext=1\r\nabc\r\n" : "") + "0\r\n\r\n"; break;
@@ -259,7 +290,13 @@ static std::string make_request(int shape, int64_t p, int idx) {
 	case 26: m = "POST"; hdr += "Transfer-Encoding: chunked\r\n"; { size_t n = (size_t)(p % 9000); char b[32]; snprintf(b, sizeof b, "%zx\r\n", n); body = std::string(b) + std::string(n, 'z') + "\r\n0\r\n\r\n"; } break;
 	case 27: hdr += "Connection: close\r\n"; break;
 	case 28: hdr = "Host: test\n"; return m + " " + target + " " + ver + "\n" + hdr + "\n";					// bare LF line ends
-	default: hdr += "Content-Length: 0x10\r\n"; m = "POST"; body = "0123456789abcdef"; break;					// hex CL
+	case 29: hdr += "Content-Length: 0x10\r\n"; m = "POST"; body = "0123456789abcdef"; break;					// hex CL
+	case 30: m = "POST"; hdr += "Transfer-Encoding: chunked\r\n"; body = std::string(p % 2 ? "0x5" : "0X5") + "\r\nhello\r\n0\r\n\r\n"; break;	// chunk size with a 0x prefix
+	case 31: m = "POST"; hdr += "Transfer-Encoding: chunked\r\n"; body = std::string(p % 3 == 0 ? "+5" : p % 3 == 1 ? "-5" : "5 5") + "\r\nhello\r\n0\r\n\r\n"; break;	// signed / spaced chunk size
+	case 32: m = "POST"; hdr += "Transfer-Encoding: chunked\r\n"; body = "0005\r\nhello\r\nA\r\n0123456789\r\n000\r\n\r\n"; break;	// leading zeros, upper-case digit (valid)
+	case 33: hdr += "X-Fold: one\r\n two\r\n\tthree\r\nX-After: z\r\n"; break;							// obs-fold over three lines
+	case 34: hdr += "Connection: keep-alive, close\r\n"; break;									// close as one of several options
+	default: m = "POST"; hdr += "Transfer-Encoding: chunked\r\n"; body = "5\r\nhello\r\n0\r\nX-T1: a\r\n b\r\nX-T2: c\r\n\r\n"; break;	// folded trailer field
 	}
 	return m + " " + target + " " + ver + "\r\n" + hdr + "\r\n" + body;
 }
@@ -277,10 +314,19 @@ static void check_server_conn(int ci) {
 	bool must_deliver = true;	// false once a message the server was free to refuse went undelivered (the connection may have ended there)
 	c.msgs.clear();
 	c.owed = -1;
+	c.undecided = -1;
 	std::set<size_t> claimed;
 	while (pos < sent.size()) {
 		h9::Msg m = h9::parse_request(sent, pos);
-		if (m.v == h9::INCOMPLETE) break;
+		if (m.v == h9::INCOMPLETE) {
+			// the stream stops inside this message (the rest is held back): if what arrived already exceeds a limit, the server
+			// has to say so now rather than wait for the rest (judged in check_responses)
+			bool all_delivered = true;
+			for (auto &pm : c.msgs) if (!pm.second) all_delivered = false;
+			std::string why;
+			if (limits && all_delivered && must_deliver && !c.closed_by_client && h9::over_limit_prefix(sent, pos, R->max_headers, R->max_body, &why)) { c.undecided = (int)c.msgs.size(); c.undecided_why = why; R->limit_hits++; probe("limit-exceeded-by-unfinished-message"); }
+			break;
+		}
 		if (m.v != h9::REJECT && !known_method(m.method)) h9::weaken(m, h9::EITHER, "a method this server does not implement");
 		size_t i = c.msgs.size();
 		// the delivered request made from this message, if any
@@ -364,6 +410,12 @@ static void check_responses(int ci) {
 		const h9::Msg &m = c.msgs[c.owed].first;
 		V("C23", "C23.request-not-delivered", "connection %d, message %d ('%s %s', %zu header fields, %zu-byte body) is a valid request, everything before it was delivered and answered without 'Connection: close', yet the callback never ran for it", ci, c.owed, m.method.c_str(), esc(m.target, 30).c_str(), m.headers.size(), m.body.size());
 	} } owed_guard{c, ci, answered, said_close};
+	struct Undecided { SConn &c; int ci; size_t &answered; bool &said_close; size_t &pos; ~Undecided() {
+		if (c.undecided < 0 || stop() || G.capped) return;
+		if (said_close || c.closed_by_server || c.was_reset || answered < (size_t)c.undecided) return;
+		if (pos < c.in.size()) return;	// something came after the answers to the complete messages: the verdict
+		V("C25", "C25.undecided-beyond-limit", "connection %d: %zu bytes were sent and the unfinished message %d already has %s; the server neither answered nor closed, it is waiting for more", ci, c.sent, c.undecided, c.undecided_why.c_str());
+	} } undecided_guard{c, ci, answered, said_close, pos};
 	if (!c.in.empty()) tr("client%d received %zu bytes: %s", ci, c.in.size(), esc(c.in, 400).c_str());
 	// one response per message of the stream, in order: the callback's for a delivered message, the library's own otherwise
 	for (size_t i = 0; i < c.msgs.size() && pos < c.in.size(); i++) {
@@ -413,6 +465,14 @@ static const enum evhttp_cmd_type ctypes[] = {EVHTTP_REQ_GET, EVHTTP_REQ_POST, E
 
 static void exec_ctx_ops(int ri);
 
+// is the connection object still there? (a connection marked free-on-completion is freed by the library)
+static bool conn_alive(CConn &L) {
+	if (!L.evcon || L.freed) return false;
+	if (L.autofree && mon::block_seq(L.evcon) != L.seq) { L.evcon = nullptr; L.freed = true; probe("connection-freed-by-library"); return false; }
+	return true;
+}
+static int submit_request(int li, int mi, size_t bodylen, const std::string &uri, bool chain, int from);
+
 static void creq_cb(struct evhttp_request *req, void *arg) {
 	int ri = (int)(intptr_t)arg;
 	if (!R) return;
@@ -430,6 +490,13 @@ static void creq_cb(struct evhttp_request *req, void *arg) {
 		q.status = evhttp_request_get_response_code(req);
 		q.headers = hdrs_of(evhttp_request_get_input_headers(req));
 		q.body = buf_str(evhttp_request_get_input_buffer(req));
+	}
+	// a request made from inside the completion callback, on the same connection (which is alive here even when it is
+	// about to be freed on completion: the library looks at its queue again after the callback)
+	if (req && R->creqs[ri].chain && R->creqs.size() < 64 && !R->cc[R->creqs[ri].conn].freed && R->cc[R->creqs[ri].conn].evcon) {
+		int li = R->creqs[ri].conn;
+		probe("request-chained-from-callback");
+		submit_request(li, 0, 0, "/c" + std::to_string(R->creqs.size()), false, ri);
 	}
 }
 static void creq_err(enum evhttp_request_error e, void *arg) {
@@ -468,7 +535,7 @@ static std::string make_response(int shape, int64_t p, const std::string &method
 	case 16: body = std::string((size_t)(p % 20000), 'B'); hdr = cl(body); break;
 	case 17: hdr = "Transfer-Encoding: chunked\r\n"; body = "4\r\nabcd\r\n0\r\nTrailer-X: y\r\n\r\n"; break;
 	case 18: status = "200"; hdr = cl(body); break;										// no reason phrase, no space
-	default: hdr = cl(body) + "Connection: keep-alive\r\n"; break;
+	default: hdr = cl(body) + (p % 2 ? "Connection: close\r\n" : "Connection: keep-alive\r\n"); break;
 	}
 	return ver + " " + status + "\r\n" + hdr + "\r\n" + body;
 }
@@ -484,6 +551,11 @@ static void srv_on_data(int li, SrvConn *sc, const std::string &d) {
 		sc->in.erase(0, m.consumed);
 		L.methods_seen.push_back(m.method);
 		sc->reqs.push_back(m.target.size() > 2 && m.target.compare(0, 2, "/c") == 0 ? atoi(m.target.c_str() + 2) : -1);
+		{	// every request on the wire is one the application made, with the method and target it gave
+			int ri = sc->reqs.back();
+			if (ri < 0 || ri >= (int)R->creqs.size() || R->creqs[ri].conn != li) V("C26", "C26.request-not-made", "connection %d: the server read '%s %s', a request the application never made on it", li, m.method.c_str(), esc(m.target, 50).c_str());
+			else if (R->creqs[ri].uri != m.target || R->creqs[ri].method != m.method) V("C26", "C26.request-differs", "request %d was made as '%s %s', the server read '%s %s'", ri, R->creqs[ri].method.c_str(), esc(R->creqs[ri].uri, 60).c_str(), m.method.c_str(), esc(m.target, 60).c_str());
+		}
 		tr("srv%d request %s %s body=%zu", li, m.method.c_str(), esc(m.target, 30).c_str(), m.body.size());
 		if (L.responses.empty()) { probe("server-silent"); continue; }	// no script: the server stays silent (timeouts)
 		std::string resp = L.responses.front(); L.responses.pop_front();
@@ -594,6 +666,29 @@ static void check_client_conn(int li) {
 	}
 }
 
+static int submit_request(int li, int mi, size_t bodylen, const std::string &uri, bool chain, int from) {
+	CConn &L = R->cc[li];
+	CReq q;
+	int ri = (int)R->creqs.size();
+	q.conn = li;
+	q.method = cmethods[mi];
+	q.uri = uri;
+	q.chain = chain;
+	q.chained_from = from;
+	R->creqs.push_back(q);
+	struct evhttp_request *req = API(evhttp_request_new(creq_cb, (void *)(intptr_t)ri));
+	if (!req) return -1;
+	evhttp_request_set_error_cb(req, creq_err);
+	evhttp_add_header(evhttp_request_get_output_headers(req), "Host", "test");
+	if (bodylen) { std::string b(bodylen, 'q'); evbuffer_add(evhttp_request_get_output_buffer(req), b.data(), b.size()); }
+	R->creqs[ri].req = req;
+	int r = API(evhttp_make_request(L.evcon, req, ctypes[mi], uri.c_str()));
+	tr("api make_request req=%d conn=%d %s '%s'%s -> %d", ri, li, cmethods[mi], esc(uri, 40).c_str(), from >= 0 ? " (from a callback)" : "", r);
+	R->creqs[ri].submitted = r == 0;
+	if (r != 0) { R->creqs[ri].req = nullptr; probe("make-request-refused"); }
+	return r;
+}
+
 static void exec_op(const Op &op) {
 	if (stop() || G.capped) return;
 	switch (op.code) {
@@ -619,13 +714,18 @@ static void exec_op(const Op &op) {
 		r.body.assign(n, 'r');
 		for (size_t k = 0; k < n; k += 97) r.body[k] = (char)('A' + k % 26);
 		r.nchunks = 1 + (int)(op.a[4] % 5);
-		switch (op.a[5] % 8) {
+		r.empty_at = (op.a[4] / 5) % 3 == 0 ? (int)((op.a[4] / 15) % r.nchunks) : -1;
+		switch (op.a[5] % 12) {
 		case 1: r.headers.emplace_back("X-App", "value " + std::to_string(op.a[3])); break;
 		case 2: r.headers.emplace_back("X-App", "a\r\nX-Injected: 1"); break;
 		case 3: r.headers.emplace_back("X Bad Name", "v"); break;
 		case 4: r.headers.emplace_back("Content-Type", "text/plain"); r.headers.emplace_back("X-Two", "2"); break;
 		case 5: r.headers.emplace_back("X-App\r\nX-Injected", "1"); break;
 		case 6: r.headers.emplace_back("X-Empty", ""); break;
+		case 7: r.headers.emplace_back("X-Fold", "a\r\n b"); break;						// a well-formed folded value
+		case 8: r.headers.emplace_back("X-App", "first\r\n second\r\nX-Injected: 1"); break;		// a fold first, an injection after it
+		case 9: r.headers.emplace_back("X-App", "a\r\n\r\n b"); break;					// would end the header section
+		case 10: r.headers.emplace_back("X-App", "a\n\tb\nX-Injected: 1"); break;
 		default: break;
 		}
 		if (R->recipes.size() < 64) R->recipes.push_back(r);
@@ -638,6 +738,7 @@ static void exec_op(const Op &op) {
 			SConn &c = R->sc[t];
 			if (c.stream.empty() || c.closed_by_client) continue;
 			size_t upto = op.a[1] % 4 == 0 ? c.sent + (size_t)(op.a[2] % (c.stream.size() - c.sent + 1)) : c.stream.size();
+			c.want = std::max(c.want, upto);
 			if (!c.open) { sconn_connect(t); if (!c.open) continue; }
 			send_more(t, upto);
 		}
@@ -678,24 +779,17 @@ static void exec_op(const Op &op) {
 	case OP_CREQ: {
 		int li = (int)(op.a[0] % NCONN);
 		CConn &L = R->cc[li];
-		if (!L.evcon || L.freed) break;
-		CReq q;
+		if (!conn_alive(L)) break;
 		int ri = (int)R->creqs.size();
-		q.conn = li;
 		int mi = (int)(op.a[1] % 5);
-		q.method = cmethods[mi];
-		q.uri = "/c" + std::to_string(ri);
-		R->creqs.push_back(q);
-		struct evhttp_request *req = API(evhttp_request_new(creq_cb, (void *)(intptr_t)ri));
-		if (!req) break;
-		evhttp_request_set_error_cb(req, creq_err);
-		evhttp_add_header(evhttp_request_get_output_headers(req), "Host", "test");
-		if (mi == 1 || mi == 3) { std::string b((size_t)(op.a[2] % 3000), 'q'); evbuffer_add(evhttp_request_get_output_buffer(req), b.data(), b.size()); }
-		R->creqs[ri].req = req;
-		int r = API(evhttp_make_request(L.evcon, req, ctypes[mi], R->creqs[ri].uri.c_str()));
-		tr("api make_request req=%d conn=%d %s -> %d", ri, li, cmethods[mi], r);
-		R->creqs[ri].submitted = r == 0;
-		if (r != 0) { R->creqs[ri].req = nullptr; probe("make-request-refused"); }
+		std::string uri = "/c" + std::to_string(ri);
+		if (R->plan->prop == "C26") switch (op.a[3] % 8) {	// targets that try to smuggle something into the request
+		case 5: uri += " x"; break;
+		case 6: uri += "\r\nX-Injected: 1"; break;
+		case 7: uri += " HTTP/1.1\r\nHost: a\r\n\r\nGET /evil" + std::to_string(ri); break;
+		default: break;
+		}
+		submit_request(li, mi, mi == 1 || mi == 3 ? (size_t)(op.a[2] % 3000) : 0, uri, R->plan->prop == "C27" && op.a[4] % 3 == 0, -1);
 		break;
 	}
 	case OP_CANCEL: {
@@ -712,7 +806,7 @@ static void exec_op(const Op &op) {
 	}
 	case OP_CONN_FREE: {
 		CConn &L = R->cc[op.a[0] % NCONN];
-		if (!L.evcon || L.freed) break;
+		if (!conn_alive(L)) break;
 		tr("api connection_free conn=%d", (int)(op.a[0] % NCONN));
 		L.freed = true;
 		for (auto &q : R->creqs) if (q.conn == (int)(op.a[0] % NCONN) && q.submitted && q.ncb == 0 && !q.cancelled) q.freed_with_conn = true;
@@ -728,6 +822,7 @@ static void execute(const Plan &p) {
 	Run run;
 	R = &run;
 	run.plan = &p;
+	run.creqs.reserve(512);
 	vk::net.sim_sockets = true;
 	vk::net.lat_min_ns = p.c("lat_min_us", 100) * 1000;
 	vk::net.lat_max_ns = p.c("lat_max_us", 100) * 1000;
@@ -761,6 +856,17 @@ static void execute(const Plan &p) {
 		for (int i = 0; i < NCONN; i++) { run.sc[i].cutseed = mix((uint64_t)p.c("cutseed"), i); run.sc[i].twin_of = (i % 2 == 1 && p.c("twins")) ? i - 1 : -1; }
 	} else {
 		for (int i = 0; i < NCONN; i++) cconn_setup(i, -1);
+		for (int i = 0; i < NCONN; i++) if (run.cc[i].evcon) {
+			run.cc[i].seq = mon::block_seq(run.cc[i].evcon);
+			if (p.c("autofree") && i % 2 == 1 && run.cc[i].seq) { run.cc[i].autofree = true; evhttp_connection_free_on_completion(run.cc[i].evcon); }
+			run.cc[i].refuse_left = (int)(p.c("refuse") ? (p.c("refuse") + i) % 4 : 0);
+		}
+		vk::connect_policy = [](const sockaddr *a, socklen_t) {
+			vk::ConnectDecision d;
+			int port = a->sa_family == AF_INET ? ntohs(((const sockaddr_in *)a)->sin_port) : 0, li = port - 8100;
+			if (R && li >= 0 && li < NCONN && R->cc[li].refuse_left > 0) { R->cc[li].refuse_left--; d.err = ECONNREFUSED; fault("http.connect-refused"); }
+			return d;
+		};
 		int retries = (int)p.c("retries");
 		for (int i = 0; i < NCONN; i++) if (run.cc[i].evcon) {
 			if (retries) evhttp_connection_set_retries(run.cc[i].evcon, retries);
@@ -777,9 +883,9 @@ static void execute(const Plan &p) {
 	if (!stop() && !G.capped) {
 		for (int s = 0; s < vk::S_NSITES; s++) vk::set_fault((vk::Site)s, 0);
 		if (!client_side) {
-			for (int t = 0; t < NCONN; t++) { SConn &c = run.sc[t]; if (!c.stream.empty() && !c.closed_by_client) { if (!c.open) sconn_connect(t); } }
+			if (!p.c("hold_back")) for (int t = 0; t < NCONN; t++) { SConn &c = run.sc[t]; if (!c.stream.empty() && !c.closed_by_client) { if (!c.open) sconn_connect(t); } }
 			for (int k = 0; k < 200000 && !stop() && !G.capped; k++) {
-				for (int t = 0; t < NCONN; t++) if (run.sc[t].open) send_more(t, run.sc[t].stream.size());
+				if (!p.c("hold_back")) for (int t = 0; t < NCONN; t++) if (run.sc[t].open) send_more(t, run.sc[t].stream.size());
 				event_base_loop(run.base, EVLOOP_NONBLOCK);
 				if (!vk::events_pending()) { bool more = false; for (int t = 0; t < NCONN; t++) if (run.sc[t].connecting) more = true; if (!more) break; }
 				vk::advance_running(std::max<int64_t>(0, std::min<int64_t>(vk::next_event_time() - G.now_ns, 1000000)));
@@ -808,7 +914,7 @@ static void execute(const Plan &p) {
 		}
 	}
 	// teardown
-	for (int i = 0; i < NCONN; i++) if (run.cc[i].evcon && !run.cc[i].freed) { for (auto &q : run.creqs) if (q.conn == i && q.submitted && q.ncb == 0 && !q.cancelled) q.freed_with_conn = true; evhttp_connection_free(run.cc[i].evcon); run.cc[i].evcon = nullptr; }
+	for (int i = 0; i < NCONN; i++) if (conn_alive(run.cc[i])) { for (auto &q : run.creqs) if (q.conn == i && q.submitted && q.ncb == 0 && !q.cancelled) q.freed_with_conn = true; evhttp_connection_free(run.cc[i].evcon); run.cc[i].evcon = nullptr; }
 	if (run.http) evhttp_free(run.http);
 	for (int k = 0; k < 4; k++) event_base_loop(run.base, EVLOOP_NONBLOCK);
 	if (mon::locks_enabled && mon::held() != 0 && !stop()) violation("C08.lock-held-at-end", "%d lock acquisition(s) held at the end", mon::held());
@@ -851,13 +957,14 @@ static void generate(Plan &p, Rng &r) {
 	if (!client) {
 		p.cfg["twins"] = r.chance(0.7);
 		p.cfg["cutseed"] = r.below(1000000);
+		if (prop == "C25") p.cfg["hold_back"] = r.chance(0.4);	// whatever the plan has not sent stays unsent: unfinished messages
 		if (prop == "C25" || r.chance(0.15)) { p.cfg["max_headers"] = r.pick(std::vector<int64_t>{0, 64, 200, 1024, 8192}); p.cfg["max_body"] = r.pick(std::vector<int64_t>{0, 1, 100, 4096, 8999}); }
 		for (int i = 0; i < nops; i++) {
 			Op o;
 			int x = (int)r.below(100);
-			if (x < 40) { o.code = OP_REQ; o.a[0] = r.below(NCONN); o.a[1] = prop == "C25" ? r.pick(std::vector<int64_t>{0, 1, 2, 23, 24, 25, 26, 23, 25}) : (r.chance(0.4) ? r.below(4) : r.below(30)); o.a[2] = r.below(100000); }
+			if (x < 40) { o.code = OP_REQ; o.a[0] = r.below(NCONN); o.a[1] = prop == "C25" ? r.pick(std::vector<int64_t>{0, 1, 2, 23, 24, 25, 26, 23, 25}) : (r.chance(0.3) ? r.below(4) : r.below(NSHAPES)); o.a[2] = r.below(100000); }
 			else if (x < 58) { o.code = OP_REPLY; for (int k = 0; k < 6; k++) o.a[k] = r.below(10000); if (prop != "C26" && r.chance(0.7)) { o.a[0] = 0; o.a[1] = 0; o.a[2] = 0; o.a[5] = 0; } }
-			else if (x < 78) { o.code = OP_SEND; o.a[0] = r.below(NCONN); o.a[1] = r.below(4); o.a[2] = r.below(100000); }
+			else if (x < 78) { o.code = OP_SEND; o.a[0] = r.below(NCONN); o.a[1] = prop == "C25" ? r.below(2) * 4 : r.below(4); o.a[2] = r.below(100000); }
 			else if (x < 93) { o.code = OP_LOOP; o.a[0] = r.range(1, 30); o.a[1] = r.chance(0.3) ? r.pick(std::vector<int64_t>{1, 100, 60000}) : 0; }
 			else if (x < 97) { o.code = OP_ADVANCE; o.a[0] = r.pick(std::vector<int64_t>{1, 1000, 49999, 50000, 60000}); }
 			else { o.code = OP_CLIENT_CLOSE; o.a[0] = r.below(NCONN); o.a[1] = r.below(2); }
@@ -866,10 +973,11 @@ static void generate(Plan &p, Rng &r) {
 	} else {
 		p.cfg["retries"] = r.chance(0.3) ? r.range(1, 3) : 0;
 		p.cfg["timeout_s"] = r.chance(0.5) ? r.pick(std::vector<int64_t>{1, 5, 50}) : 0;
+		if (prop == "C27") { p.cfg["autofree"] = r.chance(0.4); p.cfg["refuse"] = r.chance(0.4) ? r.range(1, 3) : 0; }
 		for (int i = 0; i < nops; i++) {
 			Op o;
 			int x = (int)r.below(100);
-			if (x < 30) { o.code = OP_CREQ; o.a[0] = r.below(NCONN); o.a[1] = r.below(5); o.a[2] = r.below(100000); }
+			if (x < 30) { o.code = OP_CREQ; o.a[0] = r.below(NCONN); o.a[1] = r.below(5); o.a[2] = r.below(100000); o.a[3] = r.below(8); o.a[4] = r.below(9); }
 			else if (x < 58) { o.code = OP_SRESP; o.a[0] = r.below(NCONN); o.a[1] = prop == "C27" && r.chance(0.5) ? r.pick(std::vector<int64_t>{0, 1, 2, 19}) : r.below(20); o.a[2] = r.below(100000); o.a[3] = prop == "C27" ? r.below(3) : r.below(8); o.a[4] = r.below(100000); o.a[5] = r.below(1000); }
 			else if (x < 82) { o.code = OP_LOOP; o.a[0] = r.range(1, 30); o.a[1] = r.chance(0.4) ? r.pick(std::vector<int64_t>{1, 100, 1000, 60000}) : 0; }
 			else if (x < 88) { o.code = OP_ADVANCE; o.a[0] = r.pick(std::vector<int64_t>{1, 999, 1000, 4999, 5000, 45000, 50001}); }
